@@ -522,4 +522,116 @@ theorem parseString_exact (inp content : Bytes) (n : Nat) :
     simp only [parseString, ne_eq, not_true_eq_false, if_false, this, List.nil_append]
     simp; omega
 
+/-! ### the decoder's strings inside the RFC grammar -/
+
+theorem hexVal_isSome_iff : ∀ c : Byte, (hexVal c).isSome = isHex c := by decide
+
+theorem parseHex4_isHex {h1 h2 h3 h4 : Byte} {v : Nat} (h : parseHex4 [h1, h2, h3, h4] = some v) :
+    isHex h1 = true ∧ isHex h2 = true ∧ isHex h3 = true ∧ isHex h4 = true := by
+  simp only [parseHex4] at h
+  rw [← hexVal_isSome_iff, ← hexVal_isSome_iff, ← hexVal_isSome_iff, ← hexVal_isSome_iff]
+  cases a1 : hexVal h1 <;> cases a2 : hexVal h2 <;> cases a3 : hexVal h3 <;> cases a4 : hexVal h4 <;>
+    simp [a1, a2, a3, a4] at h ⊢
+
+theorem isHex_parseHex4 {h1 h2 h3 h4 : Byte} (a1 : isHex h1 = true) (a2 : isHex h2 = true)
+    (a3 : isHex h3 = true) (a4 : isHex h4 = true) : ∃ v, parseHex4 [h1, h2, h3, h4] = some v := by
+  rw [← hexVal_isSome_iff] at a1 a2 a3 a4
+  obtain ⟨x1, e1⟩ := Option.isSome_iff_exists.1 a1
+  obtain ⟨x2, e2⟩ := Option.isSome_iff_exists.1 a2
+  obtain ⟨x3, e3⟩ := Option.isSome_iff_exists.1 a3
+  obtain ⟨x4, e4⟩ := Option.isSome_iff_exists.1 a4
+  exact ⟨x1 * 4096 + x2 * 256 + x3 * 16 + x4, by simp [parseHex4, e1, e2, e3, e4]⟩
+
+theorem JChars.append {a b : Bytes} (ha : JChars a) (hb : JChars b) : JChars (a ++ b) := by
+  induction ha with
+  | nil => simpa using hb
+  | cons c cs hc _ ih => rw [List.append_assoc]; exact JChars.cons c _ hc ih
+
+theorem JChars.single {c : Bytes} (h : JChar c) : JChars c := by
+  have := JChars.cons c [] h JChars.nil
+  simpa using this
+
+/-- what the decoder accepts as one character is one or (for a surrogate pair) two RFC `char`s -/
+theorem DChar.jchars {c d : Bytes} (h : DChar c d) : JChars c := by
+  cases h with
+  | unescaped _ hu hside => exact JChars.single (JChar.unescaped _ hu hside)
+  | self e he => exact JChars.single (JChar.simple e (by rcases he with rfl | rfl | rfl <;> decide))
+  | b => exact JChars.single (JChar.simple _ (by decide))
+  | f => exact JChars.single (JChar.simple _ (by decide))
+  | n => exact JChars.single (JChar.simple _ (by decide))
+  | r => exact JChars.single (JChar.simple _ (by decide))
+  | t => exact JChars.single (JChar.simple _ (by decide))
+  | hex h1 h2 h3 h4 v hv _ =>
+    obtain ⟨a1, a2, a3, a4⟩ := parseHex4_isHex hv
+    exact JChars.single (JChar.hex h1 h2 h3 h4 a1 a2 a3 a4)
+  | pair h1 h2 h3 h4 l1 l2 l3 l4 hi lo hhi hlo _ _ _ _ =>
+    obtain ⟨a1, a2, a3, a4⟩ := parseHex4_isHex hhi
+    obtain ⟨b1, b2, b3, b4⟩ := parseHex4_isHex hlo
+    exact JChars.append (a := [0x5c#8, 0x75#8, h1, h2, h3, h4]) (b := [0x5c#8, 0x75#8, l1, l2, l3, l4])
+      (JChars.single (JChar.hex h1 h2 h3 h4 a1 a2 a3 a4)) (JChars.single (JChar.hex l1 l2 l3 l4 b1 b2 b3 b4))
+
+theorem DChars.jchars {cs content : Bytes} (h : DChars cs content) : JChars cs := by
+  induction h with
+  | nil => exact JChars.nil
+  | cons c d cs ds hd _ ih => exact JChars.append hd.jchars ih
+
+/-- an RFC `char` that is not the `\uXXXX` escape of a surrogate -/
+inductive JCharNS : Bytes → Prop
+  | unescaped (u : Bytes) : Utf8Char u → (∀ a, u = [a] → 0x20#8 ≤ a ∧ a ≠ 0x22#8 ∧ a ≠ 0x5c#8) → JCharNS u
+  | simple (c : Byte) : isSimpleEscape c = true → JCharNS [0x5c#8, c]
+  | hex (h1 h2 h3 h4 : Byte) (v : Nat) : parseHex4 [h1, h2, h3, h4] = some v → isSurrogate v = false →
+      JCharNS [0x5c#8, 0x75#8, h1, h2, h3, h4]
+
+/-- a sequence of RFC `char`s in which surrogate escapes occur only as well-formed pairs -/
+inductive JCharsWF : Bytes → Prop
+  | nil : JCharsWF []
+  | cons (c cs : Bytes) : JCharNS c → JCharsWF cs → JCharsWF (c ++ cs)
+  | pair (h1 h2 h3 h4 l1 l2 l3 l4 : Byte) (hi lo : Nat) (cs : Bytes) :
+      parseHex4 [h1, h2, h3, h4] = some hi → parseHex4 [l1, l2, l3, l4] = some lo →
+      0xD800 ≤ hi → hi < 0xDC00 → 0xDC00 ≤ lo → lo < 0xE000 → JCharsWF cs →
+      JCharsWF ([0x5c#8, 0x75#8, h1, h2, h3, h4, 0x5c#8, 0x75#8, l1, l2, l3, l4] ++ cs)
+
+theorem JCharNS.dchar {c : Bytes} (h : JCharNS c) : ∃ d, DChar c d := by
+  cases h with
+  | unescaped _ hu hside => exact ⟨_, DChar.unescaped _ hu hside⟩
+  | simple e he =>
+    have : ∀ e : Byte, isSimpleEscape e = true →
+        (e = 0x22#8 ∨ e = 0x5c#8 ∨ e = 0x2f#8) ∨ e = 0x62#8 ∨ e = 0x66#8 ∨ e = 0x6e#8 ∨ e = 0x72#8 ∨ e = 0x74#8 := by
+      decide
+    rcases this e he with h | rfl | rfl | rfl | rfl | rfl
+    · exact ⟨_, DChar.self e h⟩
+    · exact ⟨_, DChar.b⟩
+    · exact ⟨_, DChar.f⟩
+    · exact ⟨_, DChar.n⟩
+    · exact ⟨_, DChar.r⟩
+    · exact ⟨_, DChar.t⟩
+  | hex h1 h2 h3 h4 v hv hs => exact ⟨_, DChar.hex h1 h2 h3 h4 v hv hs⟩
+
+theorem JCharsWF.dchars {cs : Bytes} (h : JCharsWF cs) : ∃ content, DChars cs content := by
+  induction h with
+  | nil => exact ⟨[], DChars.nil⟩
+  | cons c cs hc _ ih =>
+    obtain ⟨d, hd⟩ := hc.dchar
+    obtain ⟨ds, hds⟩ := ih
+    exact ⟨d ++ ds, DChars.cons c d cs ds hd hds⟩
+  | pair h1 h2 h3 h4 l1 l2 l3 l4 hi lo cs a1 a2 a3 a4 a5 a6 _ ih =>
+    obtain ⟨ds, hds⟩ := ih
+    exact ⟨_ ++ ds, DChars.cons _ _ cs ds (DChar.pair h1 h2 h3 h4 l1 l2 l3 l4 hi lo a1 a2 a3 a4 a5 a6) hds⟩
+
+theorem DChars.wf {cs content : Bytes} (h : DChars cs content) : JCharsWF cs := by
+  induction h with
+  | nil => exact JCharsWF.nil
+  | cons c d cs ds hd _ ih =>
+    cases hd with
+    | unescaped _ hu hside => exact JCharsWF.cons _ _ (JCharNS.unescaped _ hu hside) ih
+    | self e he => exact JCharsWF.cons _ _ (JCharNS.simple e (by rcases he with rfl | rfl | rfl <;> decide)) ih
+    | b => exact JCharsWF.cons _ _ (JCharNS.simple _ (by decide)) ih
+    | f => exact JCharsWF.cons _ _ (JCharNS.simple _ (by decide)) ih
+    | n => exact JCharsWF.cons _ _ (JCharNS.simple _ (by decide)) ih
+    | r => exact JCharsWF.cons _ _ (JCharNS.simple _ (by decide)) ih
+    | t => exact JCharsWF.cons _ _ (JCharNS.simple _ (by decide)) ih
+    | hex h1 h2 h3 h4 v hv hs => exact JCharsWF.cons _ _ (JCharNS.hex h1 h2 h3 h4 v hv hs) ih
+    | pair h1 h2 h3 h4 l1 l2 l3 l4 hi lo a1 a2 a3 a4 a5 a6 =>
+      exact JCharsWF.pair h1 h2 h3 h4 l1 l2 l3 l4 hi lo cs a1 a2 a3 a4 a5 a6 ih
+
 end JsonLex
